@@ -247,7 +247,7 @@ theorem num_matrix (d : Dev) (hq : d.neqFlt = false) (hv : d.viaF64 = false) (rx
     evalOp d rx o l r = .ok (.bool (cmpNum o x y)) := by
   have hs : evalOp d rx o l r = .ok (Spec.evalOp rx o l r) := by
     apply evalOp_eq_spec_of
-    · intro _; cases o <;> cases l <;> cases r <;> simp_all [uncomparablePair, sameContainer, isArr, isObj, Spec.num?, isCmp]
+    · intro _; cases o <;> cases l <;> cases r <;> simp_all [uncomparablePair, sameContainer, isArr, isObj, sameUExt, Spec.num?, isCmp]
     · intro h; rw [hq] at h; cases h
     · intro h; rw [hv] at h; cases h
   rw [hs]
@@ -283,7 +283,7 @@ theorem num_matrix_partial (rx : RxEngine) (o : Op) (ho : isCmp o = true)
     evalOp Dev.pinned rx o l r = .ok (.bool (cmpNum o x y)) := by
   have hs : evalOp Dev.pinned rx o l r = .ok (Spec.evalOp rx o l r) := by
     apply evalOp_eq_spec_of
-    · intro _; cases o <;> cases l <;> cases r <;> simp_all [uncomparablePair, sameContainer, isArr, isObj, Spec.num?, isCmp]
+    · intro _; cases o <;> cases l <;> cases r <;> simp_all [uncomparablePair, sameContainer, isArr, isObj, sameUExt, Spec.num?, isCmp]
     · intro _; exact h2
     · intro _; exact h1
   rw [hs]
@@ -471,6 +471,14 @@ theorem bare_test_ok : Gen.Script.bareExistence = true := by decide
 could put `jp.Nothing` into the data) -/
 def NoNothing (vs : List Val) : Prop := ∀ v ∈ vs, (match v with | .nothing => false | _ => true) = true
 
+/-- normalisation never produces or removes the `Nothing` marker -/
+theorem norm_present (v : Val) :
+    (match v.norm with | .nothing => false | _ => true) = (match v with | .nothing => false | _ => true) := by
+  cases v <;> try rfl
+  case ext e =>
+    simp only [Val.norm]
+    cases e.core <;> rfl
+
 /-- since 6b93c2a: the one-cell template of a bare path is the specified existence test, for every code
 variant -/
 theorem bare_path_spec (d : Dev) (rx : RxEngine) (p : Path) (elem root : Val) (h : NoNothing (Spec.sel p elem root)) :
@@ -499,15 +507,22 @@ theorem bare_path_spec (d : Dev) (rx : RxEngine) (p : Path) (elem root : Val) (h
     | cons v r =>
       rw [hs] at h
       have hv := h v (by simp)
+      have hv' := (norm_present v).trans hv
       cases r with
-      | nil => cases v <;> simp_all
-      | cons w r' => cases v <;> simp_all
+      | nil =>
+        simp only [List.any_cons, List.any_nil, Bool.or_false, hv', List.map_cons, List.map_nil]
+        generalize v.norm = x at hv'
+        cases x <;> simp_all
+      | cons w r' => simp [hv']
   · cases hs : Spec.sel p elem root with
     | nil => simp
     | cons v r =>
       rw [hs] at h
       have hv := h v (by simp)
-      cases v <;> simp_all
+      have hv' := (norm_present v).trans hv
+      simp only [↓reduceIte, List.any_cons, List.any_nil, Bool.or_false, hv']
+      generalize v.norm = x at hv'
+      cases x <;> simp_all
 
 example : NoNothing (Spec.sel ⟨false, [.child [97], .wild]⟩ (.obj [([97], .arr [.int 1, .null])]) .null) := by
   intro v hv
